@@ -603,6 +603,11 @@ class List(list, base.Symbolic, pg_typing.CustomTyping):
           f'list index out of range. '
           f'Length={len(self)}, index={index}')
 
+    if self._value_spec and self._value_spec.min_size == len(self):
+      raise ValueError(
+          f'Cannot delete item: min size ({self._value_spec.min_size}) '
+          f'is reached.')
+
     old_value = self.sym_getattr(index)
     super().__delitem__(index)
     # Detach the removed value from object tree.
